@@ -372,6 +372,17 @@ theorem C12_mp_no_underflow (l : Limits) (bytes : Nat) (m : Bool) :
   obtain ⟨t, mem, f⟩ := l
   cases m <;> cases f <;> simp [charge, Fits] at * <;> omega
 
+/-- **C12_mp_ops_monotone**: over every sequence of `try_consume_limits` calls — also one that
+carries on after a refusal, where an earlier budget stays charged — no remaining budget ever
+grows (so none can have wrapped below zero). -/
+theorem C12_mp_ops_monotone (l : Limits) (ops : List (Nat × Bool)) :
+    (runOps l ops).total ≤ l.total ∧ (runOps l ops).memory ≤ l.memory ∧
+    (∀ f', (runOps l ops).field = some f' → ∃ f, l.field = some f ∧ f' ≤ f) :=
+  runOps_mono ops l
+
+example : runOps { total := 10, memory := 3, field := some 9 } [(4, true), (2, false)] =
+    { total := 4, memory := 3, field := some 7 } := by decide
+
 /-- **C12_mp_field_iff**: a field is read to the end iff the *sum* of its chunk lengths fits all
 applicable budgets; then the budgets are charged that sum. -/
 theorem C12_mp_field_iff (m : Bool) (l : Limits) (ns : List Nat) :
